@@ -15,6 +15,7 @@ import (
 	"path/filepath"
 	"reflect"
 	"regexp"
+	"sort"
 	"strings"
 	"time"
 )
@@ -568,7 +569,17 @@ func VerifyLinkSignatureThesholds(layout Layout,
 		// authorized, the layout contains a verification key and the signature
 		// verification passes.  Only good links are stored, to verify thresholds
 		// below.
-		for signerKeyID, linkEnv := range linksPerStep {
+		// The links are visited in the order of their key ids: two links can end
+		// up under the same key id below (one filed under the key id, one
+		// attributed to it by its certificate), and which of them is kept must
+		// not depend on the iteration order of the map.
+		signerKeyIDs := make([]string, 0, len(linksPerStep))
+		for signerKeyID := range linksPerStep {
+			signerKeyIDs = append(signerKeyIDs, signerKeyID)
+		}
+		sort.Strings(signerKeyIDs)
+		for _, signerKeyID := range signerKeyIDs {
+			linkEnv := linksPerStep[signerKeyID]
 			isAuthorizedSignature := false
 			for _, authorizedKeyID := range step.PubKeys {
 				if signerKeyID == authorizedKeyID {
